@@ -19,27 +19,7 @@ use actix_server::verif::{self as hv, Interest, Listener, MioStream, Step, Stepp
 use serde::{Deserialize, Serialize};
 use vcore::{CaseResult, Fail, Obs};
 
-#[derive(Clone, Copy, Debug, Serialize, Deserialize, PartialEq, Eq)]
-pub enum LKind {
-    Tcp,
-    Uds,
-}
-
-#[derive(Clone, Copy, Debug, Serialize, Deserialize, PartialEq, Eq)]
-pub enum ErrKind {
-    Aborted,
-    Reset,
-    Refused,
-    Emfile,
-    Enfile,
-    Other,
-}
-
-impl ErrKind {
-    pub fn fatal(self) -> bool {
-        matches!(self, ErrKind::Emfile | ErrKind::Enfile | ErrKind::Other)
-    }
-}
+pub use crate::kinds::{ErrKind, LKind};
 
 #[derive(Clone, Copy, Debug, Serialize, Deserialize, PartialEq)]
 pub enum Op {
